@@ -174,7 +174,7 @@ PROPS = {
                        "of every length, RSA/MD5 keys of fewer than three octets included. Kani covers the unsafe header casts.",
         "not_covered": "RecordIter/AnyRecordIter and into_record (typed RDATA parsers for all types), the individual OPT option "
                        "parsers (parse_option of each option type is a trait contract here), OptRecord accessors (those of Header, HeaderCounts, OptHeader and OptRcode are under contract in unit wirehdr), "
-                       "Message::canonical_name/is_answer (CBMC does not terminate on them: not under contract), dig-style and "
+                       "Message::canonical_name (CBMC does not terminate on it; typed record iterators: not under contract -- D2 is guarded by its replay; Message::is_answer and RequestMessage::is_answer are under contract in unit sections), dig-style and "
                        "zone-style Display (core::fmt), ParsedName::split_first (Octets::range), 'traversed twice yields the same "
                        "result' (follows from purity over an immutable slice; not stated as an obligation).",
         "assumptions": [
@@ -935,8 +935,9 @@ PROPS = {
             {"bin": "d46_scan_decimal_overflow", "crate": "replay_net", "finding": "D46"},
             {"bin": "d47_unknown_marker_swallows_delimiter", "crate": "replay_net", "finding": "D47"},
             {"bin": "d61_zonefile_raw_del", "crate": "replay_net", "finding": "D61"},
+            {"bin": "d62_zonefile_class_inheritance", "crate": "replay_net", "finding": "D62"},
         ],
-        "explanation": "Unit zfinherit (zonefile/inplace.rs, real text of EntryScanner::{scan_owner_record, scan_record, scan_at_record, _scan_entry} and Zonefile::{set_origin, set_default_class}): the inheritance rules behind \"inherited versus explicit owner, TTL and class produce the same records\" -- a record's class is the one written on its line, else the last one stated (an error if none ever was; in validating mode a class other than the last one is refused), and only the first statement is remembered; its TTL is the one written (which later lines then inherit), else the $TTL in effect, else the last TTL stated; an indented line takes the owner of the last line that stated one and leaves it alone, a line with an owner (or `@`, which needs an origin) sets it; nothing else of what later lines inherit changes, and an entry that is not a record changes none of it. the totality half of the statement, for the tokenizer every zone-file read goes through "
+        "explanation": "Unit zfinherit (zonefile/inplace.rs, real text of EntryScanner::{scan_owner_record, scan_record, scan_at_record, _scan_entry} and Zonefile::{set_origin, set_default_class}): the inheritance rules behind \"inherited versus explicit owner, TTL and class produce the same records\" -- a record's class is the one written on its line, else the last one stated (an error if none ever was; in validating mode a class other than the last one is refused), and a class stated on a line is what later lines inherit (D62, fixed); its TTL is the one written (which later lines then inherit), else the $TTL in effect, else the last TTL stated; an indented line takes the owner of the last line that stated one and leaves it alone, a line with an owner (or `@`, which needs an origin) sets it; nothing else of what later lines inherit changes, and an entry that is not a record changes none of it. the totality half of the statement, for the tokenizer every zone-file read goes through "
                        "(zonefile/inplace.rs::SourceBuf, real text): next_item (white space, parentheses, comments, line ends, quotes) "
                        "terminates on every buffer, never reads outside it, its parenthesis counter never underflows and its "
                        "assert!(token completely read) is a precondition proved at every extracted call site; _next_symbol / "
